@@ -36,6 +36,52 @@ EXPECTATION = re.compile(r'expectation: "((?:[^"\\]|\\.)*)"')
 ANSI = re.compile(rb"\x1b\[[0-9;]*m")
 
 
+# -------------------------------------------------------------- catalogue --
+def catalogue():
+    """Codes that have a section in docs/errors.md."""
+    try:
+        with open(os.path.join(REPO, "docs", "errors.md")) as f:
+            return set(re.findall(r"^## (?:Error|Lint) code ([EL]\d+)\s*$", f.read(), re.M))
+    except OSError:
+        return set()
+
+
+def code_table():
+    """Codes the compiler can attach to a diagnostic (Error::code)."""
+    try:
+        with open(os.path.join(REPO, "src", "alpha", "error.rs")) as f:
+            text = f.read()
+    except OSError:
+        return set()
+    a = text.find("pub fn code(&self) -> u16")
+    b = text.find("fn location(&self)", a)
+    out = set()
+    for n in re.findall(r"=> (\d+),", text[a:b]):
+        n = int(n)
+        out.add(("L%d" if n >= 1000 else "E%d") % n)
+    return out
+
+
+def catalogue_findings(observed_codes):
+    """The 'published catalogue' clause, monitored: every code of the code
+    table and every code actually seen in a rendered diagnostic must have a
+    section in docs/errors.md. (A static comparison plus an observation; no
+    simulation is involved, see DESIGN 4.)"""
+    cat = catalogue()
+    if not cat:
+        return []
+    missing = sorted((code_table() | set(observed_codes)) - cat)
+    out = []
+    for code in missing:
+        seen = code in observed_codes
+        record = {"engine": "detsim", "static_catalogue_check": True, "code": code, "run_seed": "catalogue-" + code,
+                  "observed": {"class": "code_not_in_catalogue", "detail": "%s has no section in docs/errors.md (%s)" %
+                               (code, "seen in a rendered diagnostic of this run" if seen else "listed in Error::code")}}
+        out.append(Finding(PROP, "code_not_in_catalogue", record, signature="code_not_in_catalogue/" + code,
+                           summary="diagnostic code %s is not in the published catalogue docs/errors.md" % code))
+    return out
+
+
 # ------------------------------------------------------------ input sets --
 def corpus_sets():
     """Every sample, example and library file of the repository, alone; the
@@ -610,6 +656,8 @@ def run(tier, seed):
             if n < 4:
                 jobs.append((sets[res["idx"]], cls, detail, extra, tier, seed))
     findings = parallel_map(_min_job, jobs)
+    observed_codes = {c for lst in diag_lists for c in lst}
+    findings += catalogue_findings(observed_codes)
     # ASLR-on probe (thorough): the one source the simulator samples but cannot replay
     aslr_diff = 0
     aslr_n = 0
@@ -684,6 +732,12 @@ def _aslr_job(args):
 
 def replay(record):
     disable_aslr()
+    if record.get("static_catalogue_check"):
+        hit = [f for f in catalogue_findings(set()) if f.record["code"] == record["code"]]
+        print("replay: %s %s docs/errors.md" % (record["code"], "is still missing from" if hit else "is now in"))
+        if hit:
+            print("VIOLATION property=%s replay=%s" % (PROP, record.get("_path", "?")))
+        return 1 if hit else 0
     s = decode_set(record["set"])
     tier = record.get("tier", "quick")
     cfg = dict(TIERS[tier])
